@@ -235,6 +235,12 @@ def install_hooks(ex, cx):
 
     def yield_hook(ex, node, v, st):
         # request to the driver: (CALL, f, pos) -> the callee's outcome triple
+        if isinstance(v, Tup) and len(v.items) > 3:
+            # protocol of the driver: _run memoises on the WHOLE request tuple, so anything beyond (CALL, callee, position) becomes part of
+            # the memo key (one evaluation per referring site instead of one per rule and position)
+            ex.vcs.append(VC(f'safety:request-is-the-triple (CALL, callee, position): nothing else enters the memo key@{ex.ordn(node)}', st.pc + st.guards,
+                             BoolVal(False), 'safety', path=list(st.trace)))           # reported, not assumed: the rest is checked as for a triple
+            v = Tup(v.items[:3])
         if not (isinstance(v, Tup) and len(v.items) == 3):
             raise OutOfSubset('yield of a non-request')
         tag, f, pos = v.items
@@ -414,9 +420,19 @@ def generic_clauses(cx, ex, st, oc):
     status, result, pos = e.get('_status'), e.get('_result'), e.get('_pos')
     if status is None or result is None:
         raise OutOfSubset('register unassigned at exit')
+    raw_status = status
     status = ex.truth(status, st)
     result = ex.box(result)
     node = cx.node
+    # protocol of the driver: a final answer is told from a request by `answer[0] != CALL` - the status register must hold a bool (True /
+    # False), not merely something truthy: a truthy 3 would be read as a request
+    if isinstance(raw_status, (bool, z3.BoolRef)):
+        yield 'G-bool', BoolVal(True)
+    elif isinstance(raw_status, z3.ExprRef) and raw_status.sort() == Val:
+        from .symx import kind as _kind, K_BOOL as _K_BOOL
+        yield 'G-bool', _kind(raw_status) == _K_BOOL
+    else:
+        yield 'G-bool', BoolVal(False)
     yield 'G-ok', status == oc.ok
     yield 'G-val', Implies(oc.ok, result == ex.box(oc.val))
     yield 'G-end', Implies(oc.ok, pos == oc.end)
